@@ -3328,8 +3328,10 @@ should_ignore_preprocessor() const {
   // #if, a -D definition, a .N command) a '#' is just a stray character:
   // "#define K #pragma once" must not run the pragma without a file, and
   // "#define X #define X #define X ..." must not nest a directive per '#'.
+  // (A string is what has its text in _input; its _file may well be set, to
+  // the file the string came from, for the sake of diagnostics.)
   if (_infile != nullptr && _infile->_manifest == nullptr &&
-      _infile->_file._filename.empty()) {
+      !_infile->_input.empty()) {
     return true;
   }
 
